@@ -126,7 +126,7 @@ pub fn std_menu(s: &Sim, o: &MenuOpt) -> Vec<Act> {
     let inflight = s.w.ibc.flight.len();
     let can_hold = o.holds && dev_left && inflight < o.max_inflight;
     let halted = s.m.halted;
-    let stakes_done = s.w.ibc.next_seq as u32; // every stake / reward allocates a sequence: crude activity bound
+    let stakes_done = (s.w.ibc.next_seq - s.g.seed_seq.min(s.w.ibc.next_seq)) as u32; // every stake / reward allocates a sequence: crude activity bound
     let k = &s.w.k;
 
     // stakes
@@ -160,7 +160,7 @@ pub fn std_menu(s: &Sim, o: &MenuOpt) -> Vec<Act> {
         }
     }
     // unstakes
-    if (s.m.batches.len() as u64) <= o.max_batches {
+    if (s.m.batches.len() as u64) <= o.max_batches + s.g.seed_batches {
         for who in &o.unstakers {
             let bal = s.w.bal(who, &lst);
             let mut amts: Vec<u128> = Vec::new();
@@ -193,7 +193,7 @@ pub fn std_menu(s: &Sim, o: &MenuOpt) -> Vec<Act> {
         a.push(advance(t));
     }
     // submit
-    if (s.m.batches.len() as u64) <= o.max_batches {
+    if (s.m.batches.len() as u64) <= o.max_batches + s.g.seed_batches {
         for by in &o.submitters {
             a.push(submit(by));
         }
